@@ -568,6 +568,7 @@ rsolver_t make_solver_by_id(const std::string& id)
 
 struct run_cfg_t
 {
+    bool keep_defaults{false};
     long        id{0};
     std::string solver, kind, type, fname;
     double      eps{1e-8};
@@ -800,6 +801,7 @@ void configure(vh::rng_t& r, solver_t& solver, run_cfg_t& cfg, const bool ls)
     // solver-specific parameters from their domains: patience of the value test, L-BFGS history
     for (const auto& p : solver.parameters())
     {
+        if (cfg.keep_defaults) break; // targeted family T1: the solver-specific parameters stay at their defaults
         const auto& name = p.name();
         if (name.size() > 10 && name.compare(name.size() - 10, 10, "::patience") == 0 && r.range(0, 1) == 0)
         {
@@ -885,6 +887,51 @@ int main(int argc, char** argv)
                 }
                 run_one(cfg, *solver, *fn, x0, true);
                 ++runs;
+            }
+        }
+        // ---- targeted families (conditions that random configurations meet in < 1 % of the runs) ------------------------
+        // T1 "stalled": a precision the solver cannot reach (epsilon 1e-10 .. 1e-12) with a generous budget on badly scaled /
+        //    overflowing smooth functions: the run ends through its budget tests, possibly inside an inner loop (curve search,
+        //    backtracking) -- the budget clause `evaluations <= max_evals + 1100 + 8 n` is what is at stake;
+        // T2 "tiny budget": max_evals 12..80 on non-convex smooth functions: the run stops in the middle of whatever the solver
+        //    was doing (momentum overshoot, extrapolation) -- `not worse than the start` and honesty are what is at stake.
+        {
+            static const char* t1f[] = {"trid", "dixon-price", "exponential", "rosenbrock", "exponential", "sphere", "powell"};
+            static const char* t2f[] = {"styblinski-tang", "qing", "rosenbrock", "dixon-price", "trid", "powell"};
+            const long per_t1 = thorough ? 60 : 10;
+            const long per_t2 = thorough ? 150 : 24;
+            for (const auto& sd : solvers)
+            {
+                const bool gs = sd.id == "gs" || sd.id == "ags" || sd.id == "gs-lbfgs" || sd.id == "ags-lbfgs";
+                for (long k = 0; k < per_t1 + per_t2; ++k, ++id)
+                {
+                    vh::rng_t r(seed * 1000003ULL + static_cast<uint64_t>(id) * 7919ULL + 17);
+                    if (only >= 0 && id != only) continue;
+                    const bool t1 = k < per_t1;
+                    if (t1 && (gs || sd.type == "ls")) continue; // T1 is about the non-line-search solvers' inner loops
+                    run_cfg_t cfg;
+                    cfg.id     = id;
+                    cfg.solver = sd.id;
+                    cfg.kind   = sd.kind;
+                    cfg.type   = sd.type;
+                    cfg.keep_defaults = t1 && k % 2 == 0;
+                    cfg.eps    = t1 ? log_uniform(r, 1e-12, 1e-10) : log_uniform(r, 1e-10, 1e-4);
+                    cfg.maxev  = t1 ? r.range(1200, 3000) : r.range(12, 80);
+                    cfg.radius = t1 ? log_uniform(r, 1.0, r.range(0, 2) == 0 ? 300.0 : 10.0) : log_uniform(r, 0.5, 10.0);
+                    auto n     = t1 ? kDims[r.range(1, 6)] : kDims[r.range(1, 5)];
+                    if ((gs || sd.id == "ellipsoid") && n > 8) n = kDims[r.range(1, 5)];
+                    const char* fname = t1 ? t1f[r.range(0, 6)] : t2f[r.range(0, 5)];
+                    auto        proto = function_t::all().get(fname);
+                    if (!proto) continue;
+                    auto fn = proto->make(n, 10);
+                    if (!fn) continue;
+                    cfg.fname   = fn->name() + (t1 ? "/T1" : "/T2");
+                    auto solver = make_solver_by_id(sd.id);
+                    configure(r, *solver, cfg, sd.type == "ls");
+                    const auto x0 = make_x0(r, fn->size(), cfg.radius);
+                    run_one(cfg, *solver, *fn, x0, true);
+                    ++runs;
+                }
             }
         }
         // the three constrained solvers on box / linear-equality constrained smooth convex functions
